@@ -48,7 +48,8 @@ Definition w_nil : N := 3.       (* nil pointer dereference *)
 Definition w_regexp : N := 4.    (* regexp.MustCompile *)
 Definition w_nan : N := 5.       (* big.NewFloat(NaN) *)
 Definition w_nilmap : N := 6.    (* assignment to entry in nil map *)
-Definition w_fuel : N := 7.      (* model recursion bound exhausted (never on inputs shorter than the bound) *)
+Definition w_fuel : N := 7.
+Definition w_div : N := 8.      (* integer divide by zero *)      (* model recursion bound exhausted (never on inputs shorter than the bound) *)
 
 (* status codes *)
 Definition c_unknown : N := 2.
@@ -146,6 +147,20 @@ Record config := { cf_id : str; cf_values : list stored }.
 
 Record env := { en_topo : list target; en_plugins : list plugin; en_size_limit : N }.
 Definition state := list config.
+
+(* YANG decimal64 has at most 18 fraction digits *)
+Definition max_decimal_precision : N := 18.
+
+(* onos-api strDecimal64 (TypedDecimal.String / Float, TypedLeafListDecimal.ListFloat): div = 10^precision in
+   int64 arithmetic; from precision 64 on div is 0 and digits / div panics.  The precision is uint8(TypeOpts[0]) *)
+Definition dec_guard (v : nval) : outcome unit :=
+  if (nv_type v =? 5) || (nv_type v =? 12) then
+    match nv_opts v with
+    | p :: _ => if (p mod 256 <? 64)%Z then Ok tt else Panic w_div
+    | [] => Ok tt
+    end
+  else Ok tt.
+
 
 (* ------------------------------------------------------------------ utils.StrPath *)
 Definition pair_leb (a b : str * str) : bool := leb_str (fst a) (fst b).
@@ -268,6 +283,7 @@ Definition check_key_value (path : str) (r : rwpath) (v : nval) : outcome unit :
     if negb (forallb (fun nv => index_value_ok (snd nv)) idx) then Err c_invalid
     else if negb (rw_iskey r) then Ok tt
     else
+      _ <- (if nv_type v =? 5 then dec_guard v else Ok tt) ;;     (* val.ValueToString() is evaluated from here on *)
       parent <- get_parent_path path ;;
       last_seg <- slice parent (zlast_index c_slash parent + 1) (zlen parent) ;;
       pidx <- extract_index_names last_seg ;;
@@ -302,6 +318,15 @@ Fixpoint dec_digits_pos (fuel : nat) (n : N) (acc : str) : str :=
 Definition dec_n (n : N) : str := dec_digits_pos (S (N.to_nat (N.size n))) n [].
 Definition dec_z (z : Z) : str := if (z <? 0)%Z then 45 :: dec_n (Z.abs_N z) else dec_n (Z.abs_N z).
 
+(* onos-api strDecimal64 for precisions the int64 power does not overflow on: "%d" when the precision is 0,
+   otherwise "%d.%0<p>d" of the truncated quotient and the absolute remainder (the sign of a value in (-1,0) is lost) *)
+Fixpoint pad_zeros (n : nat) (s : str) : str :=
+  match n with O => s | S k => if (List.length s <? n)%nat then 48 :: pad_zeros k s else s end.
+Definition dec_str (d : Z) (p : N) : str :=
+  if p =? 0 then dec_z d
+  else let pow := (10 ^ Z.of_N p)%Z in
+       dec_z (Z.quot d pow) ++ [c_dot] ++ pad_zeros (N.to_nat p) (dec_n (Z.abs_N (Z.rem d pow))).
+
 Definition vt_string : N := 1.  Definition vt_int : N := 2.  Definition vt_uint : N := 3.
 Definition vt_bool : N := 4.    Definition vt_decimal : N := 5.  Definition vt_float : N := 6.
 Definition vt_bytes : N := 7.   Definition vt_ll_string : N := 8.  Definition vt_ll_int : N := 9.
@@ -328,7 +353,9 @@ Fixpoint leaf_list_collect (l : list (option scalar)) (a : ll_acc) : outcome ll_
     | SBool b => leaf_list_collect l' (Build_ll_acc (la_str a) (la_int a) (la_uint a) (la_bool a ++ [b]) (la_bytes a) (la_dec a) (la_float a))
     | SBytes b => leaf_list_collect l' (Build_ll_acc (la_str a) (la_int a) (la_uint a) (la_bool a) (la_bytes a ++ [b]) (la_dec a) (la_float a))
     | SDecimal None => Panic w_nil                                  (* u.DecimalVal.Digits *)
-    | SDecimal (Some (d, _)) => leaf_list_collect l' (Build_ll_acc (la_str a) (la_int a) (la_uint a) (la_bool a) (la_bytes a) (la_dec a ++ [d]) (la_float a))
+    | SDecimal (Some (d, p)) =>
+      if max_decimal_precision <? p then Err c_internal      (* repaired (fixes/C12-3) *)
+      else leaf_list_collect l' (Build_ll_acc (la_str a) (la_int a) (la_uint a) (la_bool a) (la_bytes a) (la_dec a ++ [d]) (la_float a))
     | SFloat _ => leaf_list_collect l' (Build_ll_acc (la_str a) (la_int a) (la_uint a) (la_bool a) (la_bytes a) (la_dec a) (S (la_float a)))
     | SOther => Err c_internal
     end
@@ -375,7 +402,9 @@ Definition to_native (v : option tval) : outcome nval :=
     | SBool b => Ok (mk_nval vt_bool 1 [] (Some (if b then B "true" else B "false")))
     | SBytes b => Ok (mk_nval vt_bytes (lenN b) [Z.of_N (lenN b)] None)
     | SDecimal None => Panic w_nil                            (* v.DecimalVal.Digits *)
-    | SDecimal (Some (d, p)) => Ok (mk_nval vt_decimal (mag_len (Z.abs_N d)) [Z.of_N (p mod 256); zsign_opt d] None)
+    | SDecimal (Some (d, p)) =>
+      if max_decimal_precision <? p then Err c_internal      (* repaired (fixes/C12-3): precisions above 18 are refused *)
+      else Ok (mk_nval vt_decimal (mag_len (Z.abs_N d)) [Z.of_N (p mod 256); zsign_opt d] (Some (dec_str d p)))
     | SFloat true => Err c_internal                           (* math.IsNaN guard; without it big.NewFloat panics *)
     | SFloat false => Ok (mk_nval vt_float 10 [] None)
     | SOther => Err c_internal
@@ -432,6 +461,9 @@ Definition leaf_guard (v : nval) : outcome unit :=
     end
   else if t =? vt_ll_bytes then ll_bytes_walk (N.to_nat (nv_blen v)) 0%Z 0%Z (nv_opts v)
   else Ok tt.
+
+(* tree.handleLeafValue additionally renders decimals as text / float *)
+Definition json_leaf_guard (v : nval) : outcome unit := _ <- leaf_guard v ;; dec_guard v.
 
 (* ------------------------------------------------------------------ utils.SplitPath and tree.addPathToTree *)
 (* nextTokenIndex: end of the first token (a '/' outside brackets and not escaped) *)
@@ -765,7 +797,7 @@ Definition get_update (c : config) (enc : N) (query : str) : outcome bool :=
   | [] => Ok true
   | _ :: _ =>
     if (enc =? enc_json) || (enc =? enc_json_ietf) then
-      _ <- forall_guard (fun v => _ <- tree_guard (sv_path v) ;; leaf_guard (sv_val v)) sel ;;
+      _ <- forall_guard (fun v => _ <- tree_guard (sv_path v) ;; json_leaf_guard (sv_val v)) sel ;;
       Ok false                                                  (* BuildTree may still refuse (leaf/container clash) *)
     else if enc =? enc_proto then
       _ <- forall_guard (fun v => leaf_guard (sv_val v)) sel ;;
@@ -902,7 +934,7 @@ Definition prune (vals : list stored) : list stored :=
   filter (fun v => negb (sv_deleted v) && negb (below_deleted dels (sv_path v))) vals.
 
 Definition build_tree_guard (vals : list stored) : outcome unit :=
-  forall_guard (fun v => _ <- tree_guard (sv_path v) ;; leaf_guard (sv_val v)) (prune vals).
+  forall_guard (fun v => _ <- tree_guard (sv_path v) ;; json_leaf_guard (sv_val v)) (prune vals).
 
 (* LeafSelectionQuery. nil_map: the stored configuration has a nil Values map (repaired: allocated
    before the change context is merged, so the flag no longer matters) *)
@@ -964,5 +996,5 @@ Definition lsq_wire_ok (r : lsq_req) : bool := match l_ctx r with Some cx => set
 (* what Get / LeafSelectionQuery need of the stored configurations: the tree builder and the value
    accessors do not panic on the live entries (monitored on the implementation's store after every Set) *)
 Definition stored_ok (v : stored) : bool :=
-  sv_deleted v || (negb (is_panic (tree_guard (sv_path v))) && negb (is_panic (leaf_guard (sv_val v)))).
+  sv_deleted v || (negb (is_panic (tree_guard (sv_path v))) && negb (is_panic (json_leaf_guard (sv_val v)))).
 Definition state_ok (st : state) : bool := forallb (fun c => forallb stored_ok (cf_values c)) st.
